@@ -53,6 +53,10 @@ def run(tier, seed, repo, focus=None):
     scns = [{"det": name, "seed": seed, "rows": rows} for name in ("KDQTreePartitioner", "KdqTreeBatch", "HDDDM")
             for rows in ((9000, 17000) if quick else (5000, 9000, 17000, 33000, 70000))]
     drivers.run_scenarios(res, "row_order_large", scns, known)
+    # long drift-free histories: the accumulated reference grows to 6 x rows (above any plausible cap or chunk size)
+    scns = [{"det": name, "seed": seed, "rows": rows, "batches": 4} for name in ("HDDDM", "CDBD")
+            for rows in ((7000, 21000) if quick else (3000, 7000, 21000, 45000))]
+    drivers.run_scenarios(res, "row_order_long", scns, known)
     # coarse minimum cell sizes on wide-range features (the stop rule of the tree then really bites)
     scns = [{"seed": seed + s, "rows": rows, "lb": lb, "count_ubound": cu, "d": d}
             for s in range(2 if quick else 8) for (rows, lb, cu, d) in ((300, 0.1, 8, 3), (200, 0.05, 5, 2), (400, 0.2, 12, 3))]
